@@ -680,3 +680,144 @@ pub fn count_distinct(mut v: Vec<u64>) -> u64 {
     v.dedup();
     v.len() as u64
 }
+
+// ---------------------------------------------------------------------------------------------
+// Call-history cases: the properties quantify over inputs, so the result for an input must not depend
+// on what the same thread parsed before, nor on whether the buffer is a recycled allocation.  A history
+// case is `SEQ_MAGIC ‖ n ‖ (len_hi len_lo bytes)*n`; the judge replays the first n-1 inputs through the real
+// entry points *in one reused allocation* (same address, refilled), then judges the last input in that
+// same allocation with the property's ordinary oracle.
+
+pub const SEQ_MAGIC: &[u8] = b"\xfe\xfeSEQ\xfe";
+
+pub fn encode_seq(parts: &[&[u8]]) -> Vec<u8> {
+    let mut out = SEQ_MAGIC.to_vec();
+    out.push(parts.len() as u8);
+    for p in parts {
+        out.push((p.len() >> 8) as u8);
+        out.push(p.len() as u8);
+        out.extend_from_slice(p);
+    }
+    out
+}
+
+pub fn decode_seq(case: &[u8]) -> Option<Vec<&[u8]>> {
+    let mut r = case.strip_prefix(SEQ_MAGIC)?;
+    let n = *r.first()? as usize;
+    r = &r[1..];
+    let mut parts = Vec::with_capacity(n);
+    for _ in 0..n {
+        if r.len() < 2 {
+            return None;
+        }
+        let l = ((r[0] as usize) << 8) | r[1] as usize;
+        if r.len() < 2 + l {
+            return None;
+        }
+        parts.push(&r[2..2 + l]);
+        r = &r[2 + l..];
+    }
+    Some(parts)
+}
+
+pub fn render_seq_or_bytes(case: &[u8]) -> Value {
+    match decode_seq(case) {
+        Some(parts) => json!({"call_history_in_one_reused_buffer": parts.iter().map(|p| escape(p)).collect::<Vec<_>>()}),
+        None => render_bytes(case),
+    }
+}
+
+/// An entry point reduced to a printable outcome ("PANIC: …" included), for differential comparison.
+pub type Outcome = fn(&[u8]) -> String;
+
+/// For each entry point E: replay the history through E alone in one reused allocation, call E on the last
+/// input, and compare with E on the same input in a fresh allocation.  The properties quantify over inputs,
+/// so the two outcomes must be identical.
+pub fn history_differential(parts: &[&[u8]], acc: &mut Acc, entries: &[(&'static str, Outcome)]) {
+    let (last, earlier) = match parts.split_last() {
+        Some(x) => x,
+        None => return,
+    };
+    let cap = parts.iter().map(|p| p.len()).max().unwrap_or(0) + 16;
+    for (name, e) in entries {
+        let fresh = e(&last.to_vec());
+        let mut buf: Vec<u8> = Vec::with_capacity(cap);
+        for p in earlier {
+            buf.clear();
+            buf.extend_from_slice(p);
+            let _ = e(&buf);
+        }
+        buf.clear();
+        buf.extend_from_slice(last);
+        let reused = e(&buf);
+        acc.eval(parts.len() as u64 + 1);
+        acc.validated(1);
+        if reused != fresh {
+            acc.violation(
+                &format!("result-depends-on-call-history:{}", name),
+                name,
+                format!("the same outcome as in a fresh buffer: {}", &fresh[..fresh.len().min(300)]),
+                format!("after the history, in the reused buffer: {}", &reused[..reused.len().min(300)]),
+            );
+        }
+    }
+}
+
+/// Replay a history: every earlier input is run through `warm` in one reused allocation, then the last one is
+/// judged (in that same allocation) by `plain`.
+pub fn judge_history_case(parts: &[&[u8]], acc: &mut Acc, warm: fn(&[u8]), plain: Judge) {
+    let cap = parts.iter().map(|p| p.len()).max().unwrap_or(0) + 16;
+    let mut buf: Vec<u8> = Vec::with_capacity(cap);
+    let (last, earlier) = match parts.split_last() {
+        Some(x) => x,
+        None => return,
+    };
+    for p in earlier {
+        buf.clear();
+        buf.extend_from_slice(p);
+        let _ = guard(|| warm(&buf));
+        acc.eval(1);
+    }
+    buf.clear();
+    buf.extend_from_slice(last);
+    plain(&buf, acc);
+}
+
+/// All sequences of length 2..=depth over a pool of inputs (ordered, with repetition).
+pub struct SeqUniverse {
+    pub name: String,
+    pub pool: Vec<Vec<u8>>,
+    pub depth: usize,
+}
+
+impl Universe for SeqUniverse {
+    fn name(&self) -> String {
+        self.name.clone()
+    }
+    fn bound(&self) -> Value {
+        json!({"mode": "every ordered sequence (with repetition) of 2..=depth inputs from the pool, parsed one after the other in one reused buffer on one thread; the last result is judged", "pool": self.pool.len(), "depth": self.depth})
+    }
+    fn units(&self) -> usize {
+        self.pool.len()
+    }
+    fn roots(&self) -> u64 {
+        self.pool.len() as u64
+    }
+    fn run_unit(&self, u: usize, f: &mut dyn FnMut(&[u8])) {
+        fn rec<'a>(pool: &'a [Vec<u8>], seq: &mut Vec<&'a [u8]>, left: usize, f: &mut dyn FnMut(&[u8])) {
+            if seq.len() >= 2 {
+                f(&encode_seq(seq));
+            }
+            if left == 0 {
+                return;
+            }
+            for p in pool {
+                seq.push(p);
+                rec(pool, seq, left - 1, f);
+                seq.pop();
+            }
+        }
+        let mut seq: Vec<&[u8]> = vec![&self.pool[u]];
+        rec(&self.pool, &mut seq, self.depth - 1, f);
+    }
+}
